@@ -565,31 +565,46 @@ fn main() {
     }
     let ctx = &ctx;
     let level = if ctx.thorough() { 1 } else { 0 };
-    let slots = slot_alphabet(level);
-    let conds = cond_alphabet(level);
-    let (ns, nc) = (slots.len() as u64, conds.len() as u64);
+    let (all_slots, all_uses, all_conds, all_conds2) = (slot_alphabet(), use_alphabet(), cond_alphabet(), cond2_alphabet());
     let mut total = 0u64;
     let mut per_skeleton = Vec::new();
+    // measurement aid (never used by ./check): C13_MEASURE=k explores k evenly spaced programs per skeleton
+    let measure: Option<u64> = std::env::var("C13_MEASURE").ok().and_then(|s| s.parse().ok());
     for s in 0..N_SKELETONS {
-        let (k, c) = skeleton_shape(s);
-        let mut dims = vec![ns; k];
-        dims.extend(vec![nc; c]);
-        let n = mcx::space::size(&dims);
-        // measurement aid (never used by ./check): C13_MEASURE=k explores k evenly spaced programs per skeleton
-        let measure: Option<u64> = std::env::var("C13_MEASURE").ok().and_then(|s| s.parse().ok());
+        let (roles, nconds) = skeleton_shape(s);
+        let (n, m, g, g2) = skeleton_sizes(level, s);
+        let slots = &all_slots[..n.min(all_slots.len())];
+        let uses = &all_uses[..m.min(all_uses.len())];
+        let conds = &all_conds[..g.min(all_conds.len())];
+        let conds2 = &all_conds2[..g2.min(all_conds2.len())];
+        let mut dims: Vec<u64> = roles.iter().map(|active| if *active { slots.len() as u64 } else { uses.len() as u64 }).collect();
+        if nconds >= 1 {
+            dims.push(conds.len() as u64);
+        }
+        if nconds >= 2 {
+            dims.push(conds2.len() as u64);
+        }
+        let n_programs = mcx::space::size(&dims);
         let (n_run, stride) = match measure {
-            Some(k) if k < n => (k, n / k),
-            _ => (n, 1),
+            Some(k) if k < n_programs => (k, n_programs / k),
+            _ => (n_programs, 1),
         };
         if stride != 1 {
             ctx.cap_hit("C13_MEASURE set: strided subset only");
         }
-        total += n;
-        per_skeleton.push(json!({"skeleton": SKELETON_NAMES[s], "slots": k, "conditions": c, "programs": n}));
+        total += n_run;
+        per_skeleton.push(json!({"skeleton": SKELETON_NAMES[s], "programs": n_programs, "active_slot_forms": slots.len(), "consumer_slot_forms": uses.len(), "conditions": conds.len(), "second_conditions": conds2.len(), "blocks": roles.len()}));
         par_for(n_run, 16, |i| {
             let idx = mcx::space::decode(i * stride, &dims);
-            let sl: Vec<Vec<DefForm>> = idx[..k].iter().map(|x| slots[*x as usize].clone()).collect();
-            let cs: Vec<CondForm> = idx[k..].iter().map(|x| conds[*x as usize]).collect();
+            let k = roles.len();
+            let sl: Vec<Vec<DefForm>> = roles.iter().enumerate().map(|(b, active)| if *active { slots[idx[b] as usize].clone() } else { uses[idx[b] as usize].clone() }).collect();
+            let mut cs: Vec<CondForm> = Vec::new();
+            if nconds >= 1 {
+                cs.push(conds[idx[k] as usize]);
+            }
+            if nconds >= 2 {
+                cs.push(conds2[idx[k + 1] as usize]);
+            }
             let p = build_program(s, &sl, &cs);
             let lbl = label(s, &sl, &cs);
             ctx.sample(|| json!({"label": lbl, "program": render(&p)}));
@@ -597,9 +612,12 @@ fn main() {
             ctx.add_states(1);
         });
     }
+    let render_forms = |v: &[Vec<DefForm>]| -> Vec<String> { v.iter().map(|f| f.iter().map(|d| d.label()).collect::<Vec<_>>().join("; ")).collect() };
     ctx.set(
         "bounds",
-        json!({"programs": total, "per_skeleton": per_skeleton, "slot_forms": ns, "condition_forms": nc, "def_alphabet": def_alphabet(level).iter().map(|d| d.label()).collect::<Vec<_>>(),
+        json!({"programs": total, "per_skeleton": per_skeleton,
+               "active_slot_forms_in_priority_order": render_forms(&all_slots), "consumer_slot_forms": render_forms(&all_uses),
+               "conditions_in_priority_order": all_conds.iter().map(|c| c.label()).collect::<Vec<_>>(), "second_conditions": all_conds2.iter().map(|c| c.label()).collect::<Vec<_>>(),
                "initial_states": "every combination of {0,1,5,1023,1024,-1,-1024,large pointer} for each 8-byte register whose entry value can be read, {0,1} for flags; RSP = 0x7fff0000", "block_fuel": FUEL}),
     );
     ctx.assume("entry stack pointer is 16-byte aligned; flags are 0/1; memory not written by the program holds a fixed pseudo-random byte pattern");
